@@ -392,6 +392,15 @@ func c11Exec(op string, repeats int) (string, *Violation) {
 		if v := check(i, us); v != nil {
 			return first.rendered, v
 		}
+		// no two different updates of one parent share index, timestamp and version (hypothesis of the
+		// order-independence theorem)
+		for a := 0; a < len(us); a++ {
+			for b := a + 1; b < len(us); b++ {
+				if us[a].Index == us[b].Index && us[a].Timestamp.Equal(us[b].Timestamp) && us[a].Version == us[b].Version && us[a] != us[b] {
+					return first.rendered, &Violation{Signature: "update-keys-not-injective", Text: fmt.Sprintf("parent version %d: updates %d and %d share index, time and version but differ: %+v %+v", i+1, a, b, us[a], us[b])}
+				}
+			}
+		}
 		if !c.ps[i].vis {
 			// deleted parent versions receive no annotations
 			changed := len(us) > 0
@@ -498,6 +507,45 @@ func (c *c11Case) timeTravel(o c11Out) *Violation {
 		end := int64(1 << 62)
 		if i+1 < len(c.ps) {
 			end = c.ps[i+1].commit - c.thr
+		}
+		// the annotation itself: every slot carries the version current at the parent's commit, and every
+		// update is a version committed after this parent version and before the next one
+		{
+			var us osm.Updates
+			type slot struct {
+				ver int
+				cs  osm.ChangesetID
+			}
+			var slots []slot
+			if c.kind == "way" {
+				us = o.ways[i].Updates
+				for _, n := range o.ways[i].Nodes {
+					slots = append(slots, slot{n.Version, n.ChangesetID})
+				}
+			} else {
+				us = o.rels[i].Updates
+				for _, m := range o.rels[i].Members {
+					slots = append(slots, slot{m.Version, m.ChangesetID})
+				}
+			}
+			for j, rf := range p.refs {
+				if rf.ver != 0 && c.fmod > 0 && rf.fid%c.fmod == 0 {
+					continue
+				}
+				if _, has := sorted[rf.fid]; !has {
+					continue
+				}
+				if cur, ok := currentAt(rf.fid, p.commit); ok && cur.vis {
+					if int64(slots[j].ver) != cur.ver || int64(slots[j].cs) != cur.cs {
+						return &Violation{Signature: "child-not-current-at-commit", Text: fmt.Sprintf("parent version %d (commit %d), child index %d (fid %d) annotated with version %d cs %d, but version %d cs %d was current at the commit", i+1, p.commit, j, rf.fid, slots[j].ver, slots[j].cs, cur.ver, cur.cs)}
+					}
+				}
+			}
+			for _, u := range us {
+				if u.Timestamp.Unix() <= p.commit || (i+1 < len(c.ps) && u.Timestamp.Unix() > c.ps[i+1].commit) {
+					return &Violation{Signature: "update-outside-window", Text: fmt.Sprintf("parent version %d (commit %d, next commit %v): update %+v is stamped at or before this version's commit or after the next version's commit", i+1, p.commit, end+c.thr, u)}
+				}
+			}
 		}
 		// candidate times
 		ts := []int64{p.commit}
